@@ -154,6 +154,7 @@ PROPS = {
             ['checked assignment MetaMessage._setattr from ANY valid message: stored iff in the documented domain, other attributes '
              'kept, a rejected assignment (ValueError/TypeError; AttributeError for type / unknown names) changes nothing', 'P'],
             ['reading a meta event from a track', 'see C07/C08'],
+            ['bytes() / from_bytes and file load / save repeated after callers edited the earlier results: same values, new objects', 'B'],
         ],
         assumptions=['text codec: Encodable(cs, s) => Dec(cs, Enc(cs, s)) == s and Enc yields bytes',
                      'list.reverse(): new[k] == old[len-1-k] (builtin contract)'],
@@ -308,6 +309,7 @@ PROPS = {
             ['refusals raise ValueError and write nothing; save() header and track order; _load header use', 'P'],
             ['build_meta_message: payload of a valid meta message -> that message with the delta (unknown types too)', 'P'],
             ['load(save(f)) == f with end_of_track fixed, whole files; load-save-load fixed point under byte mutation', 'B'],
+            ['loading the same bytes / saving the same file again after an earlier loaded file was edited: same events, same bytes', 'B'],
         ],
         assumptions=['file objects behave like io.BytesIO', 'event-pair coverage lifts to whole tracks (writer state = running status only)'],
         trusted_base=[],
